@@ -10,7 +10,7 @@
 (*   "Edfa"   one amplifier crossing       (C04: EffLaw, PadLaw, GainLaw, NeverAbovePmax, FlatProfile, AseLaw,       *)
 (*                                               NfRipple, NoMemory, PoutReported, OutOfBand)                       *)
 (*   "Sweep"  NF of one amplifier type over increasing gains (C04: NfMinAtFlatMax, NfMaxAtGainMin, NonIncreasing,    *)
-(*                                               NonIncreasingExtended, ClampAboveMax, DbForDbBelowMin)             *)
+(*                                               NonIncreasingExtended, ClampAboveMax, DualCascade, DbForDbBelowMin)*)
 (*   "Fiber"  one fibre crossing           (C05: LossBudget, NoMemory, ContribFromConfig + the accumulation clauses)*)
 (*   "Acc"    accumulators around a ROADM / amplifier crossing (C05: CdLinear, LatencyLinear, PmdQuadrature, ...)    *)
 (*   "End"    final accumulators of one ordering of a set of elements (C05: OrderIndependent, against the first      *)
@@ -26,6 +26,7 @@ Tol        == 3           \* exact laws: float noise is ~1e-9 udB, integer round
 TolNoAmp   == 1           \* out <= in: only the rounding of the two sides
 TolTilt    == 50000       \* GainLaw with tilt or ripple on a non-flat input comb (three-point solver), 50 mdB
 TolNfEnd   == 11000       \* nf(flatMax) = nfMin, nf(gainMin) = nfMax: the loader accepts 10 mdB, + 1 mdB
+TolLin     == 10          \* linear NF x 1e6 (values ~5e6): 2 ppm, i.e. ~9 udB; rounding of three terms <= 1.5
 TolAcc     == 3           \* 1e-3 ps/nm, ns, fs^2, mdB^2
 TolPmdCfg  == 30          \* fs^2: pmd_coef^2 x length against (pmd_coef x sqrt(length))^2, relative float noise on ~1e6 fs^2
 TolRamanLow  == 2000      \* LowPower / LumpedOnce / PumpsOnlyAddGain: 2 mdB (measured 6e-8 dB at -60 dBm per channel)
@@ -66,6 +67,7 @@ SweepClauses(e) ==
    \cup Fails("NonIncreasing", SweepNonIncreasing(e, e.pts, TolNoAmp))
    \cup Fails("NonIncreasingExtended", SweepNonIncreasingExtended(e, e.pts, TolNoAmp))
    \cup Fails("ClampAboveMax", SweepClampAboveMax(e, e.pts, Tol))
+   \cup Fails("DualCascade", SweepDualCascade(e, e.pts, TolLin))
    \cup Fails("DbForDbBelowMin", SweepDbForDbBelowMin(e, e.pts, Tol))
 
 AccClauses(e) ==
